@@ -251,6 +251,11 @@ def do_op(d, op, inputs):
         if names:
             g.required_names.remove(names[k % len(names)])
         return ("edit", {})
+    if kind == "fd_mode":
+        # approximate the Jacobian by finite differences with a non-default step (a setting that must survive)
+        d.set_jacobian_approximation(jac_approx_type="finite_differences", jax_approx_step=[1e-2, 1e-3, 5e-2][k % 3])
+        d.linearization_mode = "finite_differences"
+        return ("edit", {})
     if kind == "set_default":
         g = d.io.input_grammar
         names = sorted(n for n, v in g.defaults.items() if isinstance(v, np.ndarray) and v.size)
@@ -284,10 +289,18 @@ def run_discipline_like(ctx, d, inputs, label, iterative, cache):
     t = ctx.tape
     rtol = 1e-6 if iterative else 0.0
     n_pre = t.randint(0, 4, "n_prefix")
-    prefix = [(t.pick(["exec", "lin", "exec", "lin", "make_optional", "set_default"], f"pre_kind[{i}]"), t.choice(len(inputs), f"pre_in[{i}]")) for i in range(n_pre)]
+    prefix = [(t.pick(["exec", "lin", "exec", "lin", "make_optional", "set_default", "fd_mode"], f"pre_kind[{i}]"), t.choice(len(inputs), f"pre_in[{i}]")) for i in range(n_pre)]
+    if iterative or label.startswith("process:"):
+        prefix = [(("exec" if kd == "fd_mode" else kd), k) for kd, k in prefix]  # (approximation settings: plain disciplines only)
+    if any(kd == "fd_mode" for kd, _ in prefix):
+        suffix_force_lin = True
+    else:
+        suffix_force_lin = False
     transport = t.weighted([4, 2, 3], "transport")
     n_suf = t.randint(1, 3, "n_suffix")
     suffix = [(t.pick(["exec", "lin"], f"suf_kind[{i}]"), t.choice(len(inputs), f"suf_in[{i}]")) for i in range(n_suf)]
+    if suffix_force_lin:
+        suffix = [("lin", k) for _, k in suffix]
     sig = label
     tname = ["pickle", "to_pickle-file", "fork"][transport]
     ctx.event("cfg", label, canon(prefix), tname, canon(suffix))
@@ -296,7 +309,7 @@ def run_discipline_like(ctx, d, inputs, label, iterative, cache):
             do_op(d, op, inputs)
     except NotImplementedError:
         # a discipline without analytic Jacobian: restrict the run to executions
-        prefix = [(kd if kd in ("make_optional", "set_default") else "exec", k) for kd, k in prefix]
+        prefix = [(kd if kd in ("make_optional", "set_default", "fd_mode") else "exec", k) for kd, k in prefix]
         suffix = [("exec", k) for _, k in suffix]
     g0 = grammar_view(d)
     n_exec0 = d.execution_statistics.n_executions
@@ -349,7 +362,7 @@ def run_discipline_like(ctx, d, inputs, label, iterative, cache):
                     raise
     if g1 != g0:
         gsig = label.split("/")[0] + ("/" + label.split("/")[1] if "/" in label else "")
-        ctx.violate("C20.same_grammars", gsig + (" after-grammar-edit" if any(kd in ("make_optional", "set_default") for kd, _ in prefix) else ""),
+        ctx.violate("C20.same_grammars", gsig + (" after-grammar-edit" if any(kd in ("make_optional", "set_default", "fd_mode") for kd, _ in prefix) else ""),
                     f"grammars/defaults differ after restoring {label} (prefix {prefix}, via {tname}): {g0} vs {g1}")
     for op, (ke, ve), (kg, vg) in zip(suffix, exp, got):
         if ke == "edit":
